@@ -274,7 +274,9 @@ def build():
             clauses = clauses[:4]      # compound code: P1 is the shape part of P2
         clauses = clauses + list(extra)
         for cl in clauses:
-            cl.props = ["C13"]
+            # what is emitted for a default is an expression that evaluates to the value (P1 / P2): that is also the C05
+            # guarantee for the default / const slots (document text cannot become anything but that literal)
+            cl.props = ["C13", "C05"] if cl.name.startswith(("P1", "P2")) else ["C13"]
         if accept_known:
             clauses[2].known, clauses[2].restrict = accept_known[0], accept_known[1]
         if reject_known:
@@ -283,7 +285,7 @@ def build():
             clauses[4].known, clauses[4].restrict = valid_known[0], valid_known[1]
         case = Case("any-json", _classmethod_case(P + modcls), clauses, pre=_json_or_value, raises=(), pool=_pool,
                     native_target=P + modcls.replace(".", ":", 1).replace(":", ".", 0) if False else None,
-                    props=["C13", "C06"])
+                    props=["C13", "C06", "C05"])
         mod, cls = modcls.rsplit(".", 1)
         case.native_target = f"{P}{mod}:{cls}.convert_value"
         case.native_setup = NATIVE_HELP + NATIVE_ACCEPT[name]
